@@ -866,6 +866,10 @@ fn c04_check<K: KeyLike>(sut: &Sut<K>, kind: Kind, op: &Op, i: usize) -> Result<
         return Err(vio(p, i, kind, op, "reachable-dead", format!("step {i} {op:?}: {}", b.join("; "))));
     }
     let live = live_ids();
+    if matches!(op, Op::Purge) && !live.is_empty() {
+        // purge releases every retained key and value (ghosts included)
+        return Err(vio(p, i, kind, op, "purge-retains", format!("step {i}: after purge {} key/value object(s) are still live (ids {:?}); still reachable through the cache: {}", live.len(), &live[..live.len().min(8)], reach.len())));
+    }
     if reach != live {
         let leaked: Vec<u32> = live.iter().filter(|x| reach.binary_search(x).is_err()).copied().collect();
         let dead: Vec<u32> = reach.iter().filter(|x| live.binary_search(x).is_err()).copied().collect();
